@@ -60,7 +60,8 @@ type c07Ev struct {
 	bodyOK   bool
 }
 
-func c07Key(i int) string { return []string{"k0", "dir/k1", "k2"}[i%3] }
+// keys 1 and 2 share a directory on the file system backends
+func c07Key(i int) string { return []string{"k0", "dir/k1", "dir/k2"}[i%3] }
 
 // self-describing bodies: "<id>|<len>|" + pattern
 func c07Body(client, seq, size int) ([]byte, string) {
@@ -137,6 +138,13 @@ func (r *c07Runner) exec(client, seq int, op c07Op, rqHook func(*s3x.Req), o s3x
 		r.etags[etagOf(body)] = id
 		r.mu.Unlock()
 		rq = &s3x.Req{Method: "PUT", Path: "/bk0/mp", Query: s3x.Q("partNumber", fmt.Sprint(op.Part), "uploadId", r.upID), Body: body}
+	case "mdel":
+		// multi-object delete of the key (and of the second key, if different)
+		x := "<Delete><Object><Key>" + key + "</Key></Object>"
+		if k2 := c07Key(op.Src); k2 != key {
+			x += "<Object><Key>" + k2 + "</Key></Object>"
+		}
+		rq = &s3x.Req{Method: "POST", Path: "/bk0", Query: s3x.Q("delete", s3x.Bare), Body: []byte(x + "</Delete>")}
 	case "lparts":
 		rq = &s3x.Req{Method: "GET", Path: "/bk0/mp", Query: s3x.Q("uploadId", r.upID)}
 	case "luploads":
@@ -238,6 +246,15 @@ func (r *c07Runner) exec(client, seq int, op c07Op, rqHook func(*s3x.Req), o s3x
 				for _, c := range d.Contents {
 					ev.Listed[c.Key] = c.ETag
 				}
+			}
+		}
+	case "mdel":
+		if resp.Status == 200 {
+			var d s3x.DeleteResultDoc
+			if err := resp.XML(&d); err != nil {
+				ev.Note = "DeleteResult: " + err.Error()
+			} else if len(d.Errors) > 0 {
+				ev.Note = fmt.Sprintf("DeleteResult carries errors: %+v", d.Errors)
 			}
 		}
 	case "lparts":
@@ -367,6 +384,16 @@ func c07Judge(cs c07Case, evs []c07Ev) (ds []disc, overlapping bool) {
 		case "delver-all":
 			if e.Status != 204 {
 				fail("delete-version-failed", "client %d op %d: %s", e.Client, e.Seq, e.Note)
+			}
+		case "mdel":
+			if e.Status != 200 || e.Note != "" {
+				fail("delete-failed", "client %d op %d multi-delete answered %d %s", e.Client, e.Seq, e.Status, e.Note)
+				continue
+			}
+			// each named key is deleted at some point inside the request's interval
+			add(key, regIn{"w", "-"}, "")
+			if k2 := c07Key(e.Op.Src); k2 != key {
+				add(k2, regIn{"w", "-"}, "")
 			}
 		case "lparts", "luploads":
 			if e.Status != 200 {
@@ -518,6 +545,45 @@ func c07Exec(cs c07Case) (ds []disc, evs []c07Ev, overlapping bool) {
 				if g.Status != 200 || !bytes.Equal(g.Body, want) {
 					id, _ := c07Identify(g.Body)
 					ds = append(ds, dsc("version-content", "version %s was issued for upload %s but reads %d / %s (%d bytes)", e.Version, e.Wrote, g.Status, id, len(g.Body))...)
+				}
+			}
+		}
+	}
+	// (vi) at rest, reads and the listing agree: a key that reads back is listed with that ETag (as a
+	// key, and below its common prefix in a delimited listing), a key that does not is not listed
+	if !cs.Versioned {
+		var ld, ldd s3x.ListDoc
+		lr := s3x.Do(r.st.Handler, &s3x.Req{Method: "GET", Path: "/bk0"})
+		lrd := s3x.Do(r.st.Handler, &s3x.Req{Method: "GET", Path: "/bk0", Query: s3x.Q("delimiter", "/")})
+		if lr.Status != 200 || lr.XML(&ld) != nil || lrd.Status != 200 || lrd.XML(&ldd) != nil {
+			ds = append(ds, dsc("list-failed", "backend=%s: listing after the clients finished answered %s / %s", cs.Backend, lr, lrd)...)
+		} else {
+			listed := map[string]string{}
+			for _, c := range ld.Contents {
+				listed[c.Key] = c.ETag
+			}
+			delim := map[string]bool{}
+			for _, c := range ldd.Contents {
+				delim[c.Key] = true
+			}
+			for _, p := range ldd.Prefixes() {
+				delim[p] = true
+			}
+			for i := 0; i < 3; i++ {
+				k := c07Key(i)
+				g := s3x.Do(r.st.Handler, &s3x.Req{Method: "GET", Path: "/bk0/" + k})
+				et, in := listed[k]
+				top := k
+				if j := strings.IndexByte(k, '/'); j >= 0 {
+					top = k[:j+1]
+				}
+				switch {
+				case g.Status == 200 && (!in || et != g.Header.Get("ETag")):
+					ds = append(ds, dsc("listing-lost-key", "backend=%s: at rest %s reads 200 with ETag %s, the listing shows %q (listed=%v)", cs.Backend, k, g.Header.Get("ETag"), et, in)...)
+				case g.Status == 200 && !delim[top]:
+					ds = append(ds, dsc("listing-lost-key", "backend=%s: at rest %s reads 200, the '/'-delimited listing shows neither it nor %q", cs.Backend, k, top)...)
+				case g.Status == 404 && in:
+					ds = append(ds, dsc("listing-phantom-key", "backend=%s: at rest %s reads 404, the listing shows it with ETag %s", cs.Backend, k, et)...)
 				}
 			}
 		}
@@ -933,12 +999,12 @@ func c07Classify(cs c07Case, ds []disc) []disc {
 }
 
 func c07GenOp(rt *rapid.T, keys int, maxSize int) c07Op {
-	k := rapid.SampledFrom([]string{"put", "put", "put", "get", "get", "get", "head", "del", "copy", "list"}).Draw(rt, "kind")
+	k := rapid.SampledFrom([]string{"put", "put", "put", "get", "get", "get", "head", "del", "mdel", "copy", "list"}).Draw(rt, "kind")
 	op := c07Op{K: k, Key: rapid.IntRange(0, keys-1).Draw(rt, "key")}
 	switch k {
 	case "put":
 		op.Size = rapid.SampledFrom([]int{0, 10, 1000, 40000, maxSize}).Draw(rt, "size")
-	case "copy":
+	case "copy", "mdel":
 		op.Src = rapid.IntRange(0, keys-1).Draw(rt, "src")
 	}
 	return op
@@ -1102,7 +1168,7 @@ func TestC07Race(t *testing.T) {
 				var ops []c07Op
 				for i := 0; i < 6; i++ {
 					seed = seed*6364136223846793005 + 1442695040888963407
-					kindsOf := []string{"put", "get", "head", "del", "copy", "list", "put", "get"}
+					kindsOf := []string{"put", "get", "head", "del", "copy", "list", "put", "mdel"}
 					op := c07Op{K: kindsOf[(seed>>33)%8], Key: int((seed >> 40) % 2), Src: int((seed >> 45) % 2), Size: int((seed >> 20) % 5000)}
 					if cs.Versioned && op.K == "put" {
 						op.K = "vput"
